@@ -114,6 +114,38 @@ func (c *ctx) sinkLedger() {
 // connection was admitted; ok=false when a reload was in flight at that moment (the
 // statement allows either configuration then, but not a mixture - that is C15's clause).
 func (c *ctx) docIndexFor(conn int) (int, bool) {
+	if len(c.p.Park) == 0 {
+		// nothing is ever parked in this run: a configuration the loader has taken is dealt
+		// with by the end of that scheduler step, whatever the loader logs about it
+		accepted := []int{0}
+		for _, e := range c.r.Events {
+			if e.Kind == "publish-done" && e.S == "" {
+				accepted = append(accepted, int(e.A))
+			}
+		}
+		k, lastStep := 0, -1
+		sawTaken := false
+		for _, e := range c.r.Events {
+			switch {
+			case e.Kind == "config-taken":
+				k++
+				lastStep = e.Step
+				sawTaken = true
+			case e.Kind == "get-begin" && e.Conn == conn:
+				if e.Step == lastStep {
+					return 0, false
+				}
+			case e.Kind == "get-end" && e.Conn == conn:
+				if e.Step == lastStep || k == 0 || k > len(accepted) {
+					return 0, false
+				}
+				return accepted[k-1], true
+			}
+		}
+		if sawTaken {
+			return 0, false
+		}
+	}
 	inForce := 0
 	var flight []int
 	began := false
@@ -219,6 +251,9 @@ func (c *ctx) refConn(d model.Doc, i int) {
 	// ---- admission (C13)
 	if adm.Band != "" {
 		c.r.Probes["band:"+adm.Band]++
+		if adm.NoUsable && w.getOK == 1 {
+			c.grantsWithoutScope(id, cs, adm, replies, w.secret)
+		}
 	} else if !reloaded {
 		if !adm.Admit {
 			if w.getOK == 1 {
@@ -230,6 +265,7 @@ func (c *ctx) refConn(d model.Doc, i int) {
 			if len(replies) > 0 || len(c.r.Tail[id]) > 0 || len(w.writes) > 0 {
 				c.v("C13/refused-but-written", "conn %d from %s must be refused (%s) but bytes were written", id, cs.Addr, adm.Why)
 			}
+			c.grantsWithoutScope(id, cs, adm, replies, w.secret)
 			return
 		}
 		if w.getOK != 1 {
@@ -398,6 +434,32 @@ func (c *ctx) refConn(d model.Doc, i int) {
 // left out: code that answers a rejected request may have rewritten it in place).
 func sameRequest(a, b model.Header) bool {
 	return a.Session == b.Session && a.Seq == b.Seq && a.Type == b.Type && a.Version == b.Version
+}
+
+// grantsWithoutScope: under the configuration in force the connection has no scope it
+// could be bound to (refused, or every matching scope is without users): whatever key it
+// was bound to, no user and no right exists for it.
+func (c *ctx) grantsWithoutScope(id int, cs *plan.ClientSpec, adm model.Admission, replies []model.Packet, secret []byte) {
+	for _, rp := range replies {
+		if int(rp.H.Length) != len(rp.Body) {
+			continue
+		}
+		body := model.Obfuscate(rp.H, secret, rp.Body)
+		switch rp.H.Type {
+		case model.TypeAuthen:
+			if v, err := model.DecodeAuthenReply(body); err == nil && v.Status == model.AuthenPass {
+				c.vs("C10/pass-without-basis", "no-scope", "conn %d from %s: PASS although the configuration in force gives this connection no scope (%s): no user exists for it", id, cs.Addr, adm.Why)
+			}
+		case model.TypeAuthor:
+			if v, err := model.DecodeAuthorReply(body); err == nil && (v.Status == model.AuthorPassAdd || v.Status == model.AuthorPassRepl) {
+				c.vs("C11/granted-against-policy", "no-scope", "conn %d from %s: authorization granted although the configuration in force gives this connection no scope (%s)", id, cs.Addr, adm.Why)
+			}
+		case model.TypeAcct:
+			if v, err := model.DecodeAcctReply(body); err == nil && v.Status == model.AcctSuccess {
+				c.vs("C12/success-must-be-error", "no-scope", "conn %d from %s: accounting acknowledged although the configuration in force gives this connection no scope (%s)", id, cs.Addr, adm.Why)
+			}
+		}
+	}
 }
 
 func min(a, b int) int {
